@@ -20,9 +20,9 @@ var handlerShapes = []string{"raw_prefilled", "raw_buffered", "raw_unbuffered", 
 
 func yarnKindOfGo(k string) byte {
 	switch k {
-	case "string":
+	case "string", "MyString":
 		return 's'
-	case "bool":
+	case "bool", "MyBool":
 		return 'b'
 	}
 	return 'n'
@@ -643,7 +643,7 @@ func (g *gen) expr(ty byte, depth int) *Expr {
 			if g.tp.Bool("pn2") {
 				return &Expr{K: eCall, S: "pn2", A: []*Expr{g.expr('n', depth-1), g.expr('n', depth-1)}}
 			}
-			return &Expr{K: eCall, S: "pn", A: []*Expr{g.expr('n', depth-1)}}
+			return &Expr{K: eCall, S: []string{"pn", "pnn"}[g.tp.Int(0, 1, "pnkind")], A: []*Expr{g.expr('n', depth-1)}}
 		case 7:
 			return &Expr{K: eCall, S: "visited_count", A: []*Expr{{K: eStr, S: g.visitName()}}}
 		case 8:
